@@ -29,7 +29,73 @@ class VIterView(V):
         self.base = base
 
 
+class VLazy(V):
+    """a lazy iterator object that the code builds and hands on without consuming it: iter(callable, sentinel) and itertools.islice(it, stop).
+    Nothing can be PROVED about the unbounded consumption of one (there is no loop in the verified text to carry an invariant); `DataMixin.drain_lazy`
+    consumes up to DRAIN_BOUND items as a genuine execution prefix, so that refutations met there are reported, and gives longer paths up as undecided."""
+    def __init__(self, kind, parts):
+        self.kind = kind
+        self.parts = parts
+        self.count = 0          # islice: items handed out so far (concrete: draining is bounded)
+        self.done = False
+
+
+class LazyStop(Exception):
+    pass
+
+
+DRAIN_BOUND = 3
+
+
 class DataMixin:
+    # ------------------------------------------------------------------ lazy iterators (refutation only, see VLazy)
+    def lazy_next(self, lz):
+        ex = self.ex
+        if lz.done:
+            raise LazyStop()
+        if lz.kind == 'callsentinel':
+            f, sentinel = lz.parts
+            v = self.call_value(f, [], {})
+            # CPython: PyObject_RichCompareBool(result, sentinel, Py_EQ) - identity first, then ==
+            same = self.eq(v, sentinel)
+            hit = same if isinstance(same, bool) else ex.branch(same, 'iter(callable, sentinel):sentinel-hit')
+            if hit:
+                lz.done = True
+                raise LazyStop()
+            return v
+        if lz.kind == 'islice':
+            inner, stop = lz.parts
+            if stop is not NONE:
+                n = self.as_int(stop, None, 'islice stop')
+                c = smt.simp(lz.count >= n)
+                full = z3.is_true(c) if z3.is_true(c) or z3.is_false(c) else ex.branch(c, 'islice:stop-reached')
+                if full:
+                    lz.done = True
+                    raise LazyStop()
+            if not isinstance(inner, VLazy):
+                raise Undecided(f'islice over {inner!r}')
+            try:
+                v = self.lazy_next(inner)
+            except LazyStop:
+                lz.done = True
+                raise
+            lz.count += 1
+            return v
+        raise Undecided(f'lazy iterator of kind {lz.kind}')
+
+    def drain_lazy(self, lz):
+        """the values a consumer of `lz` gets, as a symbolic list; only paths that end within DRAIN_BOUND items are decided"""
+        ex = self.ex
+        out = ex.alloc(HSymList(z3.Empty(SeqVal)))
+        ex.notes_abstracted.add(f'lazy iterator ({lz.kind}) returned by the function: consumed for at most {DRAIN_BOUND} items (refutations only; longer paths undecided)')
+        for _ in range(DRAIN_BOUND + 1):
+            try:
+                v = self.lazy_next(lz)
+            except LazyStop:
+                return out
+            self.cm_HSymList_append(out, v)
+        raise Undecided(f'lazy iterator ({lz.kind}) not exhausted after {DRAIN_BOUND} items; no loop to carry an invariant')
+
     # ------------------------------------------------------------------ cnt ghost
     def tracked(self):
         return self.ex.ghost.get('cnt_track', [])
